@@ -45,6 +45,7 @@ def contexts(tier):
         out.append((Ctx(f"params/probe{pi}", ["typedef", "int", "a", ";", "void", "y", "("], [")", "{"] + pr + ["}"] + pr[:0], domain=["int", "a", "b", "*", ",", "(", ")", "void", "[", "]"]), 4 if q else 5))
         out.append((Ctx(f"after-function/probe{pi}", ["typedef", "int", "a", ";", "void", "y", "(", "int", "a", ")", "{"], ["}", "int", "y", "(", "void", ")", "{"] + pr + ["}"], domain=SMALL), 3 if q else 4))
     cls = {"?N": ["a", "b"], "?K": ["typedef", "int"], "?D": ["typedef int", "int"], "?S": ["struct", "union", "enum"],
+           "?X": ["( a )", "( ( a ) )", "( * a )", "a", "( a ) ( a )", "( * ( a ) )", "( b ) ( a )"],
            "?T": ["enum { y }", "enum b { y , b }", "struct b { int y ; }", "union { a y ; }", "struct { enum { y } b ; }"]}
     pats = [
         # object / parameter / enumerator / tag / member / label declarations of a name that is a typedef outside
@@ -98,6 +99,9 @@ def contexts(tier):
         "typedef int a ; void y ( int a , int ( * b ) ( int y [ a * 1 ] ) ) ; a * b ;",
         "typedef int a ; void y ( int ( * b ) ( int a ) , a * y ) ; a * b ;",
         "typedef int a ; void y ( ?K ?N , int y [ sizeof ( a ) ] ) ;",
+        # a typedef name in redundant parentheses in a parameter declarator is a parameter TYPE (6.7.5.3p11), not the parameter's name
+        "typedef int a ; void y ( int ( ( a ) ) , int ( * ( a ) ) , int ( * ( * b ) ( a ) ) ) { a * b ; }",
+        "typedef int a ; void y ( int ( ?X ) ) { a * b ; } void b ( int ( * ?X ) ) { a * y ; }",
         # file-scope declarations with several declarators (a separate code path from block-scope declarations):
         # every declarator's name is in scope from the end of ITS declarator
         "typedef int y , b , a [ sizeof ( b ) ] ; struct y { b a ; a b ; } ;",
